@@ -166,7 +166,7 @@ Definition names_sweep (scripts : list item) : bool :=
   forallb (fun s =>
              match build s with
              | Ok c => ns_wf c && script_clean s &&
-                       forallb (fun n => name_ok (c_auto_dash c) n (model_nobs c n)) names_vocab
+                       forallb (fun n => token_ok (c_auto_dash c) n (model_nobs c n)) names_vocab
              | Err _ => false
              end) scripts.
 
